@@ -236,11 +236,16 @@ def make_weights(rng, d):
 
 def make_feature(rng, n):
     k = rng.randrange(4)
+    # a third of the features contain missing values (NaN / null): they take another path through bin_feature (the null
+    # bin is split off before the number of bins is looked at), and every argument guard has to hold there as well
+    holes = set(rng.sample(range(n), rng.randrange(1, max(2, n // 2 + 1)))) if n >= 2 and rng.random() < 0.35 else set()
     if k == 0:
-        return np.array([rng.uniform(-3, 3) for _ in range(n)], dtype=float)
+        return np.array([np.nan if i in holes else rng.uniform(-3, 3) for i in range(n)], dtype=float)
     if k == 1:
+        if holes:
+            return pl.Series("f", [None if i in holes else rng.randrange(0, 6) for i in range(n)], dtype=pl.Int64)
         return np.array([rng.randrange(0, 6) for _ in range(n)], dtype=np.int64)
-    vals = [rng.choice(["a", "b", "c", "dd"]) for _ in range(n)]
+    vals = [None if i in holes else rng.choice(["a", "b", "c", "dd"]) for i in range(n)]
     if k == 2:
         return vals if rng.random() < 0.5 else pl.Series("f", vals)
     return pl.Series("cat", vals, dtype=pl.Categorical)
